@@ -168,3 +168,34 @@ def pick_trace_cases(ctx, cases, n):
     for c in chosen:
         out.append({"l": c["l"], "level": rnd.choice(LEVELS), "doc": rnd.random() < 0.75})
     return out
+
+
+def trace_corruption_selftest(ctx, tpath):
+    """Binding self-test: drop one NodeEnd and shift one EatToken range of a recorded good trace; ParserTrace must
+    flag exactly those parses (I_bal / I_eat and predicted-tree equality)."""
+    lines = []
+    ntree = 0
+    with open(tpath) as f:
+        for line in f:
+            lines.append(json.loads(line))
+            if lines[-1]["e"] in ("Tree", "Panic"):
+                ntree += 1
+                if ntree == 2:
+                    break
+    if ntree < 2:
+        return
+    first_end = next((i for i, r in enumerate(lines) if r["e"] == "End"), None)
+    second_reset = [i for i, r in enumerate(lines) if r["e"] == "Reset"][1]
+    eat2 = next((i for i in range(second_reset, len(lines)) if lines[i]["e"] == "Eat"), None)
+    if first_end is None or eat2 is None or first_end > second_reset:
+        return
+    bad = [dict(r) for r in lines]
+    bad[eat2]["s"] += 1
+    del bad[first_end]
+    bpath = os.path.join(ctx.work, "trace_corrupt.ndjson")
+    write_ndjson(bpath, bad)
+    res = vlib.tlc("ParserTrace", "ParserTrace_q", workers=1, dfs=True, env={"TRACE": bpath}, timeout=600)
+    v = sorted([x for tag, x in res.json if tag == "VERDICT"], key=lambda x: x["case"])
+    if len(v) != 2 or v[0]["bal"] or v[0]["tree_eq"] or v[1]["eat"]:
+        raise vlib.ToolError("ParserTrace self-test: corrupted trace was not rejected: %r" % (v,))
+    ctx.note("trace_corruption_selftest", "dropped NodeEnd -> I_bal false, tree differs; shifted EatToken -> I_eat false")
